@@ -391,6 +391,15 @@ def filter_harnesses(text, names, kinds):
     return text, keep
 
 
+def externs_realisable(summ):
+    for m in summ[1]:
+        for it in m[3]:
+            if it[3] == 'extern' and it[4][0] == 'resolved':
+                size, align = it[4][1], it[4][2]
+                if align == 0 or size % align != 0: return False
+    return True
+
+
 def extern_defs(w):
     out = []
     for path, it in sorted(w.items.items()):
